@@ -566,8 +566,13 @@ func checkDrain(c DrainCase) error {
 			}
 		}()
 	}
-	for c.ClearPairs > 0 && pairs.Load() < int64(c.ClearPairs) {
+	// (bounded by the number of Clear calls as well: under the race detector
+	// on few processors the churners get little of the lock)
+	for it := 0; c.ClearPairs > 0 && pairs.Load() < int64(c.ClearPairs) && it < 3*c.ClearPairs; it++ {
 		ch.Clear()
+		if it%64 == 63 {
+			runtime.Gosched()
+		}
 	}
 	clearing.Store(false)
 	for r := 0; r < c.Rounds; r++ {
@@ -632,7 +637,7 @@ var drainProp = vp.Register(vp.Prop[DrainCase]{
 			Rounds:     rapid.IntRange(20, 120).Draw(t, "rounds"),
 			Churners:   rapid.IntRange(1, 3).Draw(t, "churners"),
 			Procs:      rapid.SampledFrom([]int{2, 4, 16}).Draw(t, "procs"),
-			ClearPairs: rapid.SampledFrom([]int{0, 0, 30000, 150000}).Draw(t, "clearpairs") * map[bool]int{false: 1, true: 4}[vp.Thorough()],
+			ClearPairs: rapid.SampledFrom([]int{0, 0, 30000, 150000}).Draw(t, "clearpairs") * map[bool]int{false: 1, true: 2}[vp.Thorough()],
 		}
 	},
 	Check: checkDrain,
